@@ -3,6 +3,7 @@ package spec
 import (
 	"go/ast"
 	"go/types"
+	"regexp"
 	"sort"
 	"strings"
 
@@ -12,7 +13,7 @@ import (
 func init() {
 	register(&Spec{
 		ID:          "C12",
-		Loads:       []LoadSpec{{Patterns: []string{"./contractcourt"}}},
+		Loads:       []LoadSpec{{Patterns: []string{"./contractcourt", "./htlcswitch"}}},
 		Explanation: "Decides the go-to-chain predicate (false exactly below expiry - delta; received HTLCs always, offered ones if forwarded or past the grace period), that offered HTLCs are timed against the outgoing delta and received ones against the incoming delta and only when the preimage is known, that every HTLC of the confirmed commitment receives exactly one disposition per direction, that the two dangling-HTLC passes share their guard chain and fail back only HTLCs absent from the confirmed (resp. local) set whose preimage is unknown, that every produced chain action has a consumer, that the confirmed-commitment key selects the matching evaluation and the chain watcher records the key of the commitment that actually matched, and that each resolver-producing action appends one resolver per HTLC with a resolution.",
 		NotDecided: []string{
 			"the HTLC sets themselves and their subset relations", "block timing relative to each expiry",
@@ -491,6 +492,99 @@ func runC12(r *an.Run) {
 				}
 				if len(apps) != 1 || !f.Before([]an.Site{s}, apps[0]) {
 					o.FailAt(f.ID+"#"+ctor+"-append", s.Where(), "the resolver built by %s is appended %d times", ctor, len(apps))
+				}
+			}
+		})
+
+	r.Obl("htlc-sets-come-from-their-commitment", "ROLE",
+		"wherever an HTLC set is stored under one of the keys LocalHtlcSet / RemoteHtlcSet / RemotePendingHtlcSet its value is taken from that very commitment: the local commitment, the current remote commitment, the remote commit chain tip (pending) - at arbitrator start-up (newActiveChannelArbitrator), in the chain watcher's commit set (newChainSet) and in the link's three contract updates (after SignNextCommitment: the pending remote HTLCs; after RevokeCurrentCommitment: our HTLCs; after ReceiveRevocation: the remote HTLCs); copies between the arbitrator's own maps keep the key",
+		"the go-to-chain decision and the dispositions are computed per set: an HTLC that exists only on the pending remote commitment but is filed under another key (or missing) is never timed out on chain before its incoming HTLC expires", 10,
+		func(o *an.Obl) {
+			source := map[string]*regexp.Regexp{
+				"LocalHtlcSet":         regexp.MustCompile(`LocalCommitment\.Htlcs|localCommit\.Htlcs|LatestCommitments\(\)\.Htlcs|RevokeCurrentCommitment\(\)#`),
+				"RemoteHtlcSet":        regexp.MustCompile(`RemoteCommitment\.Htlcs|remoteCommit\.Htlcs|LatestCommitments\(\)#1\.Htlcs|ReceiveRevocation\(`),
+				"RemotePendingHtlcSet": regexp.MustCompile(`RemoteCommitChainTip\(\).*\.Commitment\.Htlcs|SignNextCommitment\(.*\.PendingHTLCs`),
+			}
+			n := 0
+			check := func(f *an.Func, key string, val ast.Expr, where string) {
+				n++
+				c := f.Canon(val)
+				o.Site("%s: %s <- %s", where, key, c)
+				if strings.Contains(c, "["+cc+key+"]") {
+					return // copy under the same key
+				}
+				for other := range source {
+					if other != key && strings.Contains(c, "["+cc+other+"]") {
+						o.FailAt(f.ID+"#set-"+key, where, "the set stored under %s is copied from the set of %s", key, other)
+						return
+					}
+				}
+				if !source[key].MatchString(c) {
+					o.FailAt(f.ID+"#set-"+key, where, "the set stored under %s is taken from %s, expected the HTLCs of that commitment", key, c)
+				}
+			}
+			keyName := func(f *an.Func, e ast.Expr) string {
+				c := f.Canon(e)
+				for k := range source {
+					if c == cc+k {
+						return k
+					}
+				}
+				return ""
+			}
+			for _, f := range p.Funcs(false, "contractcourt", "htlcswitch") {
+				if strings.HasSuffix(f.ID, "HtlcSetKey.String") {
+					continue
+				}
+				ast.Inspect(f.Body, func(nd ast.Node) bool {
+					switch x := nd.(type) {
+					case *ast.FuncLit:
+						return false
+					case *ast.AssignStmt:
+						if len(x.Lhs) == 1 && len(x.Rhs) == 1 {
+							if ix, ok := x.Lhs[0].(*ast.IndexExpr); ok {
+								if k := keyName(f, ix.Index); k != "" {
+									check(f, k, x.Rhs[0], f.Where(x.Pos()))
+								}
+							}
+						}
+					case *ast.CompositeLit:
+						var key string
+						var htlcs ast.Expr
+						for _, el := range x.Elts {
+							kv, ok := el.(*ast.KeyValueExpr)
+							if !ok {
+								continue
+							}
+							if k := keyName(f, kv.Key); k != "" {
+								check(f, k, kv.Value, f.Where(kv.Pos()))
+							}
+							if an.Text(kv.Key) == "HtlcKey" {
+								key = keyName(f, kv.Value)
+							}
+							if an.Text(kv.Key) == "Htlcs" {
+								htlcs = kv.Value
+							}
+						}
+						if key != "" && htlcs != nil {
+							check(f, key, htlcs, f.Where(x.Pos()))
+						}
+					}
+					return true
+				})
+			}
+			if n < 10 {
+				o.FailAt("HtlcSetKey#sites", "", "expected at least 10 keyed HTLC-set writes, found %d", n)
+			}
+			// the pending set is filled whenever a chain tip exists
+			f := p.Func(cc + "newActiveChannelArbitrator")
+			for _, v := range f.Graph().V {
+				as, ok := v.Node.(*ast.AssignStmt)
+				if !ok || len(as.Lhs) != 1 {
+					continue
+				}
+				if ix, ok := as.Lhs[0].(*ast.IndexExpr); ok && keyName(f, ix.Index) == "RemotePendingHtlcSet" {
+					guarded(o, f, an.Site{Fn: f, V: v, Node: as}, an.IsNil(an.LocalNamed("pendingRemoteCommitment"), false, "a remote commit chain tip exists"))
 				}
 			}
 		})
